@@ -36,7 +36,7 @@ CLASS_TEXT = {
     "incstr_empty_file": "F6: digit-string function on a file without digits panics",
     "inc_empty_file_range": "F23: explicit range on an empty file silently accepted",
     "dot_component_in_current": "a `.` (or the leading empty) component of the containing file's path is what a later `..` pops",
-    "std_prefix_real_directory": "`<std>/x` falls through to a real directory named `<std>`",
+    "std_prefix_real_directory": "F47 (fixed; regression family): `<std>/x` falls through to a real directory named `<std>`",
     "include_inside_if_block": "`#include` nested in an `#if` block is silently ignored",
     "incfn_in_fn_body_uses_caller_file": "an inclusion function called in a `#fn` body is resolved relative to the CALLER's file",
     "incfn_operand_through_asm_block": "an operand substituted into an `asm { }` block is resolved relative to the rule's file",
@@ -588,7 +588,9 @@ def stream_realfs(chk, fnd, model):
             want = None  # marker of the file that must be spliced; None = must be rejected / not found
             if not is_std:
                 refp = G.ref_navigate(rd + "/x" if rd else "x", r)
-                if refp is not None:
+                # a normalised name under `<std>/` (e.g. from `/<std>/f.asm` or `./<std>/f.asm`) names the built-in
+                # library only, like the verbatim spelling: a real directory called `<std>` is never read
+                if refp is not None and not refp.startswith("<std>/"):
                     want = marks.get(os.path.normpath(os.path.join(proj, refp)))
             got = None
             if rc == 0:
@@ -601,7 +603,8 @@ def stream_realfs(chk, fnd, model):
             m_mark = None
             if mod.startswith("OK:"):
                 mp = vlib.unhx(mod[3:])
-                m_ok = is_emb or os.path.isfile(os.path.join(proj, mp))
+                # the model's file server (Includes.real_lookup): `<std>/` names are answered from the embedded table only
+                m_ok = is_emb if mp.startswith("<std>/") else os.path.isfile(os.path.join(proj, mp))
                 if m_ok and not is_emb:
                     m_mark = marks.get(os.path.normpath(os.path.join(proj, mp)))
             else:
@@ -611,10 +614,10 @@ def stream_realfs(chk, fnd, model):
             if not as_model:
                 if is_std and ".." in G.comps_of(r):
                     cls = "std_dotdot"
+                elif is_std or (mp or "").startswith("<std>/"):
+                    cls = "std_prefix_real_directory"   # F47 returning: not in the repaired-code model any more
                 elif any(c == "" for c in G.comps_of(rs)[1:-1]):
                     cls = "empty_component_in_current"
-            elif is_std:
-                cls = "std_prefix_real_directory"
             elif "." in G.comps_of(rs)[:-1]:
                 cls = "dot_component_in_current"
             bad = None
